@@ -1157,12 +1157,10 @@ def layout(ctx, g, en, allow_file=True, force=None):
     r = rng.random()
     if force:
         mode = force
-    elif allow_file and listable and r < 0.4:
-        mode = "file" if r < 0.2 else "file-comp"
-    elif r < 0.7:
-        mode = "list"
+    elif allow_file and listable:
+        mode = "file" if r < 0.32 else "file-comp" if r < 0.55 else "list" if r < 0.8 else "type"
     else:
-        mode = "type"
+        mode = "list" if r < 0.55 else "type"
     if mode in ("file", "file-comp") and not listable:
         mode = "list" if mode == "file-comp" else "type"
     comp = None
@@ -1187,6 +1185,21 @@ def layout(ctx, g, en, allow_file=True, force=None):
             en["files"][0]["blocks"] = blocks[:k]
             en["files"].append({"name": "b.go", "blocks": blocks[k:]})
             en["typefile"] = 0
+        elif len(en["files"]) == 1 and rng.random() < 0.7:
+            # a single block: declare one more constant of the type in a second file
+            try:
+                _, d0 = evaluate(en)
+                lo, hi = krange(en["kind"])
+                vs = set(v for _, v in d0)
+                cand = [v for v in [max(vs) + 1, max(vs) + 5, min(vs) - 1, 0, 1, 2, 3, 7] if lo <= v <= hi and v not in vs] if vs else []
+                names = set(_all_names(en))
+                nm_ = next((n for n in [T + "Far", "Far" + T, T + "Far2", "FarAway9"] if n not in names and trim(T, n) not in [trim(T, x) for x in names]), None)
+                if cand and nm_ and classify(en)[0] in ("wf", "neg", "big"):
+                    en["files"].append({"name": "b.go", "blocks": [{"paren": rng.random() < 0.5, "specs": [
+                        {"names": [nm_], "form": "t", "ty": T, "exprs": [("lit", cand[0])]}]}]})
+                    en["typefile"] = 0
+            except (ValueError, KeyError):
+                pass
         files = render_files(en, aux_separate=True)
         tf = en["files"][en.get("typefile", 0)]["name"]
         sel = ["-file=" + tf]
